@@ -1,1 +1,181 @@
-fn main() {}
+//! C16 driver: synthetic images -> image_to_blp -> encode -> (walker reads header / locator from the
+//! bytes at the positions TLC emitted) -> parse -> decode level 0.  Observations only.
+use image::{DynamicImage, RgbaImage};
+use wow_blp::convert::{
+    blp_to_image, image_to_blp, AlphaBits, Blp2Format, BlpOldFormat, BlpTarget, DxtAlgorithm, FilterType,
+};
+use wow_blp::encode::encode_blp0;
+use wow_blp::parser::{parse_blp_with_externals, preloaded_mipmaps};
+use wow_blp::{BlpContent, BlpImage};
+use wverif_common::*;
+
+fn make_image(cls: &str, w: u32, h: u32, rng: &mut Rng) -> RgbaImage {
+    let mut img = RgbaImage::new(w, h);
+    let pal: Vec<[u8; 3]> = (0..12).map(|_| [rng.byte(), rng.byte(), rng.byte()]).collect();
+    for (x, y, p) in img.enumerate_pixels_mut() {
+        p.0 = match cls {
+            "gradient" => [
+                (x * 255 / w.max(2).saturating_sub(1)).min(255) as u8,
+                (y * 255 / h.max(2).saturating_sub(1)).min(255) as u8,
+                ((x + y) % 256) as u8,
+                ((x * 7 + y * 13) % 256) as u8,
+            ],
+            "fewcolors" => {
+                let c = pal[rng.below(12) as usize];
+                [c[0], c[1], c[2], [0u8, 64, 128, 255][rng.below(4) as usize]]
+            }
+            "transparent" => [rng.byte(), rng.byte(), rng.byte(), 0],
+            "binalpha" => [rng.byte(), rng.byte(), rng.byte(), if rng.chance(1, 2) { 255 } else { 0 }],
+            _ => [rng.byte(), rng.byte(), rng.byte(), rng.byte()],
+        };
+    }
+    img
+}
+
+fn target(ver: &str, enc: &str, alpha: i64) -> BlpTarget {
+    let ab = match alpha {
+        0 => AlphaBits::NoAlpha,
+        1 => AlphaBits::Bit1,
+        4 => AlphaBits::Bit4,
+        _ => AlphaBits::Bit8,
+    };
+    let has_alpha = alpha != 0;
+    let alg = DxtAlgorithm::RangeFit;
+    match (ver, enc) {
+        ("Blp0", "raw1") => BlpTarget::Blp0(BlpOldFormat::Raw1 { alpha_bits: ab }),
+        ("Blp0", "jpeg") => BlpTarget::Blp0(BlpOldFormat::Jpeg { has_alpha }),
+        ("Blp1", "raw1") => BlpTarget::Blp1(BlpOldFormat::Raw1 { alpha_bits: ab }),
+        ("Blp1", "jpeg") => BlpTarget::Blp1(BlpOldFormat::Jpeg { has_alpha }),
+        ("Blp2", "raw1") => BlpTarget::Blp2(Blp2Format::Raw1 { alpha_bits: ab }),
+        ("Blp2", "raw3") => BlpTarget::Blp2(Blp2Format::Raw3),
+        ("Blp2", "jpeg") => BlpTarget::Blp2(Blp2Format::Jpeg { has_alpha }),
+        ("Blp2", "dxt1") => BlpTarget::Blp2(Blp2Format::Dxt1 { has_alpha, compress_algorithm: alg }),
+        ("Blp2", "dxt3") => BlpTarget::Blp2(Blp2Format::Dxt3 { has_alpha, compress_algorithm: alg }),
+        ("Blp2", "dxt5") => BlpTarget::Blp2(Blp2Format::Dxt5 { has_alpha, compress_algorithm: alg }),
+        _ => tool_error(&format!("no target for {ver}/{enc}")),
+    }
+}
+
+fn class<T, E: std::fmt::Debug>(o: Outcome<Result<T, E>>) -> (String, Option<T>) {
+    match o {
+        Outcome::Done(Ok(v)) => ("ok".into(), Some(v)),
+        Outcome::Done(Err(e)) => (format!("err:{}", variant_name(&e)), None),
+        Outcome::Panic(_) => ("panic".into(), None),
+        Outcome::Hang => ("hang".into(), None),
+    }
+}
+fn u32_at(b: &[u8], p: usize) -> i64 {
+    if p + 4 <= b.len() {
+        (u32::from_le_bytes([b[p], b[p + 1], b[p + 2], b[p + 3]]).min(0x7fff_0000)) as i64
+    } else {
+        -1
+    }
+}
+fn level_sizes(b: &BlpImage) -> Vec<usize> {
+    match &b.content {
+        BlpContent::Raw1(c) => c.images.iter().map(|i| i.len()).collect(),
+        BlpContent::Raw3(c) => c.images.iter().map(|i| i.len()).collect(),
+        BlpContent::Jpeg(c) => c.images.iter().map(|i| i.len()).collect(),
+        BlpContent::Dxt1(c) | BlpContent::Dxt3(c) | BlpContent::Dxt5(c) => c.images.iter().map(|i| i.len()).collect(),
+    }
+}
+
+fn run_case(case: &str, c: &Value, rng: &mut Rng) -> Vec<Value> {
+    let mut evs = Vec::new();
+    let (ver, enc, alpha) = (gs(c, "ver"), gs(c, "enc"), gi(c, "alpha"));
+    let (w, h, mips, cls) = (gi(c, "w") as u32, gi(c, "h") as u32, gb(c, "mips"), gs(c, "img"));
+    let (hdr, loc) = (gi(c, "hdr") as usize, gi(c, "loc") as usize);
+    evs.push(json!({"ev":"Reset","case":case,"ver":ver,"enc":enc,"alpha":alpha,"w":w,"h":h,"mips":mips,"img":cls}));
+    let src = make_image(cls, w, h, rng);
+    let src_tok = tok(src.as_raw());
+    let tgt = target(ver, enc, alpha);
+    let dynimg = DynamicImage::ImageRgba8(src.clone());
+    let (cres, blp) = class(guarded(move || image_to_blp(dynimg, mips, tgt, FilterType::Triangle)));
+    let Some(blp) = blp else {
+        evs.push(json!({"ev":"Convert","case":case,"res":cres,"nimg":0,"stok":"-","lens":[]}));
+        return evs;
+    };
+    let lens = level_sizes(&blp);
+    evs.push(json!({"ev":"Convert","case":case,"res":cres,"nimg":lens.len(),"stok":dtok(&blp),"lens":lens}));
+    let (eres, enc_out) = class(guarded(|| encode_blp0(&blp)));
+    let Some(out) = enc_out else {
+        evs.push(json!({"ev":"Encode","case":case,"res":eres,"len":0,"tok":"-","ext":[]}));
+        return evs;
+    };
+    let bytes = out.blp_bytes;
+    let ext: Vec<usize> = out.blp_mipmaps.iter().map(|m| m.len()).collect();
+    evs.push(json!({"ev":"Encode","case":case,"res":eres,"len":bytes.len(),"tok":tok(&bytes),"ext":ext}));
+    // header fields and locator, read from the produced bytes at the positions the specification gave
+    let mut offs = Vec::new();
+    let mut sizes = Vec::new();
+    if loc > 0 {
+        for i in 0..16 {
+            offs.push(u32_at(&bytes, loc + 4 * i));
+            sizes.push(u32_at(&bytes, loc + 64 + 4 * i));
+        }
+    }
+    let has_mips = if ver == "Blp2" { bytes.get(11).map(|b| *b as i64).unwrap_or(-1) } else { u32_at(&bytes, 24) };
+    let jh = if enc == "jpeg" { u32_at(&bytes, hdr) } else { 0 };
+    evs.push(json!({"ev":"Header","case":case,"w":u32_at(&bytes, 12),"h":u32_at(&bytes, 16),"hasMips":has_mips,"offs":offs,"sizes":sizes,"jh":jh,
+        "magic":String::from_utf8_lossy(&bytes[..4.min(bytes.len())]).to_string()}));
+    let mm = out.blp_mipmaps.clone();
+    let b2 = bytes.clone();
+    let (pres, parsed) = class(guarded(move || {
+        parse_blp_with_externals(&b2, |i| preloaded_mipmaps(&mm, i)).map_err(|e| format!("{e:?}"))
+    }));
+    let pres = if pres.starts_with("err") { "err:Parse".to_string() } else { pres };
+    match &parsed {
+        Some(p) => evs.push(json!({"ev":"Parse","case":case,"res":pres,"nimg":level_sizes(p).len(),"stok":dtok(p),"lens":level_sizes(p)})),
+        None => evs.push(json!({"ev":"Parse","case":case,"res":pres,"nimg":0,"stok":"-","lens":[]})),
+    }
+    if let (Some(p), true) = (&parsed, enc == "raw1" || enc == "raw3") {
+        let (dres, dec) = class(guarded(|| blp_to_image(p, 0)));
+        let mut pal_bad = 0usize;
+        let mut pairs: Vec<(u8, u8)> = Vec::new();
+        let mut l0 = "-".to_string();
+        let mut dims = (0u32, 0u32);
+        if let Some(d) = dec {
+            let rgba = d.into_rgba8();
+            dims = (rgba.width(), rgba.height());
+            l0 = tok(rgba.as_raw());
+            if let BlpContent::Raw1(r) = &p.content {
+                let cm: std::collections::HashSet<u32> = r.cmap.iter().map(|c| c & 0x00ff_ffff).collect();
+                for px in rgba.pixels() {
+                    let col = px[0] as u32 | (px[1] as u32) << 8 | (px[2] as u32) << 16;
+                    if !cm.contains(&col) {
+                        pal_bad += 1;
+                    }
+                }
+            }
+            if rgba.dimensions() == src.dimensions() {
+                let mut seen = std::collections::BTreeSet::new();
+                for (a, b) in src.pixels().zip(rgba.pixels()) {
+                    seen.insert((a[3], b[3]));
+                }
+                pairs = seen.into_iter().collect();
+            }
+        }
+        let pj: Vec<Value> = pairs.iter().map(|(a, b)| json!([a, b])).collect();
+        evs.push(json!({"ev":"Decode","case":case,"res":dres,"l0tok":l0,"srctok":src_tok,"palBad":pal_bad,"pairs":pj,"dw":dims.0,"dh":dims.1}));
+    }
+    evs
+}
+
+fn main() {
+    let a = args();
+    install_quiet_panic_hook();
+    let cases = read_cases(&a.cases);
+    let trace = Trace::create(&a.trace);
+    let seed = seed();
+    let results: Vec<std::sync::Mutex<Vec<Value>>> = (0..cases.len()).map(|_| std::sync::Mutex::new(Vec::new())).collect();
+    par_for(cases.len(), ncpu().min(8), |ci| {
+        let c = &cases[ci];
+        let case = format!("{ci}:blp");
+        let mut rng = Rng::derive(seed, &case);
+        *results[ci].lock().unwrap() = run_case(&case, c, &mut rng);
+    });
+    for r in results {
+        trace.block(r.into_inner().unwrap());
+    }
+    trace.flush();
+}
